@@ -84,7 +84,7 @@ def run(chk, facts):
             chk.ob("R-C19-1", f"zip-source:{root}", ok,
                    f"`{root}` (one element per input file) is zipped with `source`" if ok else
                    f"`{root}` holds only the failing files but is zipped with `source`, which holds every file: the i-th error gets the text and path of the i-th project file", loc)
-    chk.floor("R-C19-1", nz, 2, "zips with the per-file source list")
+    chk.floor("R-C19-1", nz, 1, "zips with the per-file source list")
     # the text that is attached is the text that was parsed: positions are counted in the parsed text, the quoted line is
     # looked up in the attached one.  (a) with_source gets `Some(<the binding that was parsed>)`, (b) nothing textual is
     # applied to that binding in mamba_to_python, (c) AST::from_str hands its input to the lexer as it is, and the lexer
@@ -196,7 +196,7 @@ def run(chk, facts):
         r = reviewed.get((fn, kind))
         ok = r is not None and n <= r["count"] and r["disposition"] != "finding"
         chk.ob("R-C19-3", f"{fn}|{kind}", ok, f"{fn}: {n}x `{kind}` - " + (f"{r['disposition']}: {r['reason']}" if ok else "an unreviewed construct that can panic while a diagnostic is rendered"), loc3[(fn, kind)])
-    chk.floor("R-C19-3", n3, 6, "panic obligations inside the renderers")
+    chk.floor("R-C19-3", n3, 4, "panic obligations inside the renderers")
     c03._invariants(chk, facts)
 
     # ---------------- R-C19-4 ----------------
